@@ -42,6 +42,11 @@ def jobs(tier, seed):
     js = [dict(name=f'{c}-{mode}', cls=c, mode=mode, n=n) for c in cl for mode in ('one-run', 'two-runs')]
     # class lists that leave some intermediate values undeclared (those traces must be ignored in every batch alike)
     js += [dict(name=f'{c}-one-run-sparse', cls=c, mode='one-run-sparse', n=n) for c in cl if c.startswith(('ANOVA', 'NICV', 'SNR'))]
+    # attacks with a convergence step: the final results are still those of the whole trace set. In the two-run job (6 traces, step 2,
+    # runs of 3 and 3) the first run ends off the step grid and, with batches of 2, the second ends on it one trace after its last point
+    att = [c for c in cl if c.endswith('Attack') and not c.startswith('MIA')]
+    js += [dict(name=f'{c}-one-run-conv2', cls=c, mode='one-run-conv2', n=n) for c in att]
+    js += [dict(name=f'{c}-two-runs-conv2', cls=c, mode='two-runs-conv2', n=6, split=3) for c in att]
     return js
 
 
@@ -93,20 +98,23 @@ def run_job(job):
         x = S.const(rnp.array([[(3 * i + 2 * j) % 8 for j in range(3)] for i in range(n)], dtype='uint8')) if mia else S.sym_real('x', (n, 3), 'float64')
         data = S.const(rnp.array([[i % 2, (i // 2) % 2] for i in range(n)], dtype='uint8'))
         settings = [1, 2, n, n + 1, 0.001, [(0, 2), (2, 3), (10, 1)]]
-        frames = [slice(0, 2), [2, 0], ...]
+        frames = [slice(0, 2), [2, 0], ..., [1, 2, 0]]          # [1, 2, 0]: a list whose sorting permutation is not its own inverse
         chains = [[], [P1], [P1, P2], [P2, P1]] if not mia else [[]]
+        if 'conv' in mode:          # the convergence bookkeeping does not depend on frames or preprocesses: a thinner grid
+            settings, frames, chains = [1, 2, n + 1], [slice(0, 2), ...], [[], [P1]]
         first = True
         for bs, frame, chain in itertools.product(settings, frames, chains):
-            if (bs not in (2, n + 1)) and (frame is not frames[1] and chain is not chains[-1]) and (frames.index(frame) + chains.index(chain) + settings.index(bs)) % 2:
+            if 'conv' not in mode and (bs not in (2, n + 1)) and (frame is not frames[1] and frame is not frames[3] and chain is not chains[-1]) and (frames.index(frame) + chains.index(chain) + settings.index(bs)) % 2:
                 continue            # thin the grid: every value of every dimension still occurs with several partners
             L.CLOCK.reset()
             cont.set_batch_size(bs)
             sparse = mode.endswith('sparse')
-            an, sf, model = make_analysis(cls, sparse=sparse)
+            conv = int(mode[-1]) if 'conv' in mode else None
+            an, sf, model = make_analysis(cls, sparse=sparse, convergence_step=conv)
             if mode.startswith('one-run'):
                 parts = [(0, n)]
             else:
-                parts = [(0, 3), (3, n)]
+                parts = [(0, job.get('split', 3)), (job.get('split', 3), n)]
             for a, b in parts:
                 ths = FakeTHS(x[a:b], {'data': data[a:b]})
                 c = cont.Container(ths, frame=frame, preprocesses=list(chain))
@@ -122,10 +130,10 @@ def run_job(job):
             ref.update(traces=xf, data=inter)
             expected = ref.compute()
             got = an.results
-            desc = f'{cls}.run on a container (batch size {bs}, frame {frame}, {len(chain)} preprocess(es){", two run() calls" if mode == "two-runs" else ""}{", classes [0, 2] (values 1 and 3 undeclared)" if sparse else ""})'
+            desc = f'{cls}.run on a container (batch size {bs}, frame {frame}, {len(chain)} preprocess(es){", two run() calls" if mode.startswith("two-runs") else ""}{", convergence_step " + str(conv) if conv else ""}{", classes [0, 2] (values 1 and 3 undeclared)" if sparse else ""})'
 
             def wit(what):
-                return lambda m, bs=bs, frame=frame, chain=chain: dict(kind='run', cls=cls, mode=mode, n=n, bs=bs if not isinstance(bs, list) else 'table', frame=str(frame),
+                return lambda m, bs=bs, frame=frame, chain=chain: dict(kind='run', cls=cls, mode=mode, n=n, split=job.get('split', 3), bs=bs if not isinstance(bs, list) else 'table', frame=str(frame),
                                                                       chain=[f.__name__ for f in chain], what_failed=what, x=L.model_values(m, x), key=dict(kind='run', cls=cls, what=what, mode=mode))
             same = got is not None and tuple(S._w(got).shape) == tuple(S._w(expected).shape) and all(equal_elem(u, v) for u, v in zip(S._w(got).c.reshape(-1), S._w(expected).c.reshape(-1)))
             pr.prove(z3.BoolVal(bool(same) and an.processed_traces == n), desc + ': results == the same distinguisher applied once to all traces (frame, then preprocess chain in order) and model(selection_function(metadata))',
@@ -174,6 +182,8 @@ def replay(w):
         kw = dict(selection_function=sf, model=model, precision='float64')
         if attack:
             kw['discriminant'] = scared.maxabs
+            if 'conv' in mode and conv_ok[0]:
+                kw['convergence_step'] = int(mode[-1])
         if cls.startswith(('ANOVA', 'NICV', 'SNR', 'MIA')):
             kw['partitions'] = [0, 2] if mode.endswith('sparse') else list(range(8))
         if mia:
@@ -181,11 +191,14 @@ def replay(w):
             kw['precision'] = 'uint32'
         return getattr(scared, cls)(**kw), sf, model
     tries = [x0] + ([np.array([rnd.uniform(-3, 3) for _ in range(x0.size)]).reshape(x0.shape) for _ in range(3)] if not mia else [])
+    conv_ok = [True]
     for X in tries:
         scared.set_batch_size(bs)
         try:
+            conv_ok[0] = True
             an, sf, model = mk()
-            parts = [(0, n)] if mode.startswith("one-run") else [(0, 3), (3, n)]
+            conv_ok[0] = False           # the one-shot reference has no convergence step
+            parts = [(0, n)] if mode.startswith("one-run") else [(0, w.get("split", 3)), (w.get("split", 3), n)]
             with np.errstate(all='ignore'):
                 for a, b in parts:
                     ths = tr.read_ths_from_ram(samples=X[a:b], data=data[a:b])
